@@ -115,15 +115,23 @@ def check_aggregation(rep, prog):
         rep.check(any('check_management' in o for o in ops) and any('check_primitives' in o for o in ops) and len(ops) == 2,
                   'C17.5', 'PGPKey.check_soundness', 'return %s' % render(s.ret),
                   'soundness must be the union of the management and primitive issues', where=cs.where, found=render(s.ret))
-    # is_expired compares expires_at with now using <= / <
+    # is_expired: no expiry time -> never expired; otherwise "expiry time is not after now" (decided on the returned values)
     ie = prog.method('pgpy.pgp', 'PGPKey', 'is_expired')
-    cmp_ok = False
-    for n in ast.walk(ie.node):
-        if isinstance(n, ast.Compare) and len(n.ops) == 1 and isinstance(n.ops[0], (ast.LtE, ast.Lt)) and \
-                'now' in ast.unparse(n.comparators[0]):
-            cmp_ok = True
-        if isinstance(n, ast.Compare) and len(n.ops) == 1 and isinstance(n.ops[0], (ast.GtE, ast.Gt)) and \
-                'now' in ast.unparse(n.left):
-            cmp_ok = True
-    rep.check(cmp_ok, 'C17.5', 'PGPKey.is_expired', 'comparison of expiry with now',
-              'a key is expired when its expiry time is not after now', where=ie.where)
+    NOW = r'[\w.]*\b(?:now|utcnow)\((?:[\w.]*)\)'
+    forms = [re.compile(r'^\(<expires> (<=|<) %s\)$' % NOW), re.compile(r'^\(%s (>=|>) <expires>\)$' % NOW),
+             re.compile(r'^not \(<expires> (>=|>) %s\)$' % NOW), re.compile(r'^not \(%s (<=|<) <expires>\)$' % NOW)]
+    for has_expiry in (False, True):
+        sc = Scenario(bind={'self.expires_at': Sym('<expires>', nonnull=True) if has_expiry else Const(None)}, inline=lambda f: False)
+        outs = [s for s in Interp(prog, sc).run(ie) if s.raised is None]
+        if not outs:
+            raise AnalysisError('PGPKey.is_expired has no returning path')
+        for s in outs:
+            rt = render(s.ret) if s.ret is not None else 'None'
+            if not has_expiry:
+                ok = isinstance(s.ret, Const) and s.ret.value is False
+                rep.check(ok, 'C17.5', 'PGPKey.is_expired', 'no expiry time -> %s' % rt,
+                          'a key without an expiry time is not expired', where=ie.where, expected='False', found=rt, scenario='expires_at is None')
+            else:
+                rep.check(any(rx.match(rt) for rx in forms), 'C17.5', 'PGPKey.is_expired', 'comparison of expiry with now: %s' % rt,
+                          'a key is expired when its expiry time is not after now', where=ie.where,
+                          expected='expires_at <= now', found=rt, scenario='expires_at set')
